@@ -1916,7 +1916,7 @@ func (p *wat2cWorker) buildFunc_ins(w io.Writer, fn *ast.Func, stk *valueTypeSta
 	case token.INS_F32_NEG:
 		sp0 := stk.Pop(token.F32)
 		ret0 := stk.Push(token.F32)
-		fmt.Fprintf(w, "%sR%d.f32 = 0-R%d.f32; // %s\n",
+		fmt.Fprintf(w, "%sR%d.f32 = -R%d.f32; // %s\n",
 			indent, ret0, sp0,
 			insString(i),
 		)
@@ -2021,7 +2021,7 @@ func (p *wat2cWorker) buildFunc_ins(w io.Writer, fn *ast.Func, stk *valueTypeSta
 	case token.INS_F64_NEG:
 		sp0 := stk.Pop(token.F64)
 		ret0 := stk.Push(token.F64)
-		fmt.Fprintf(w, "%sR%d.f64 = 0-R%d.f64; // %s\n",
+		fmt.Fprintf(w, "%sR%d.f64 = -R%d.f64; // %s\n",
 			indent, ret0, sp0,
 			insString(i),
 		)
